@@ -383,15 +383,15 @@ class Contract:
     def decode_instruction(self, pc: int) -> Instruction:
         """decode instruction at pc and cache the result"""
 
+        # note: a negative index would not raise IndexError, it would alias an instruction at the end of the code
+        if pc < 0:
+            raise ValueError(f"invalid {pc=}")
+
         try:
             if (insn := self._insn[pc]) is not None:
                 return insn
-        except IndexError as e:
-            if pc < 0:
-                raise ValueError(f"invalid {pc=}") from e
-
-            if pc >= len(self._insn):
-                return Instruction.STOP
+        except IndexError:
+            return Instruction.STOP
 
         insn = self._decode_instruction(pc)
         self._insn[pc] = insn
